@@ -774,7 +774,7 @@ impl<'a> Tr<'a> {
         let mut segs: Vec<String> = p.path.segments.iter().map(|s| s.ident.to_string()).collect();
         // `subtags::Language::from_bytes`, `parser::parse_language_identifier_from_iter`: module
         // prefixes (lower-case segments before the last one or two) carry no meaning here
-        while segs.len() > 1 && segs[0].chars().next().map(|c| c.is_lowercase()).unwrap_or(false) && segs[0] != "char" {
+        while segs.len() > 1 && segs[0].chars().next().map(|c| c.is_lowercase()).unwrap_or(false) && segs[0] != "char" && segs[0] != "u32" && segs[0] != "u64" {
             segs.remove(0);
         }
         let args: Vec<&syn::Expr> = c.args.iter().collect();
@@ -845,6 +845,8 @@ impl<'a> Tr<'a> {
             }
             let name = segs[0].clone();
             self.named(&name)?;
+            // the contract is the target `<T>.fromRaw` (translated from `from_raw_unchecked` itself, proved in SrcTie/Raw.lean)
+            self.need_contract(&format!("{}.fromRaw", name))?;
             let is_opt = matches!(self.newtype_inner(&name)?, Some(Ty::Opt(_)));
             return self.lift(&[v], Ty::Named(name), false, &|a| {
                 if is_opt {
@@ -854,9 +856,45 @@ impl<'a> Tr<'a> {
                 }
             });
         }
+        if segs.len() == 2 && (segs[0] == "u32" || segs[0] == "u64") && segs[1] == "from_le_bytes" && args.len() == 1 {
+            // `u64::from_le_bytes(*s.all_bytes())`, `s` a TinyAsciiStr: the little-endian integer of its bytes, NUL padding
+            // included (contract: `Model/Likely.lean`, `pack`)
+            if let syn::Expr::Unary(u) = args[0] {
+                if matches!(u.op, syn::UnOp::Deref(_)) {
+                    if let syn::Expr::MethodCall(mc) = &*u.expr {
+                        if mc.method == "all_bytes" && mc.args.is_empty() {
+                            let v = self.tr_expr(&mc.receiver, env, None)?;
+                            let width_ok = match (&v.ty, segs[0].as_str()) {
+                                (Ty::Tiny(4), "u32") | (Ty::Tiny(8), "u64") => true,
+                                _ => false,
+                            };
+                            if !width_ok {
+                                return self.unsup(format!("{}::from_le_bytes of the bytes of {:?}", segs[0], v.ty));
+                            }
+                            return self.lift(&[v], Ty::UInt, false, &|a| format!("(UL.pack {})", a[0]));
+                        }
+                    }
+                }
+            }
+            return self.unsup(format!("`{}::from_le_bytes` of something other than `*s.all_bytes()`", segs[0]));
+        }
         if segs.len() == 2 {
             let (ty, f) = (segs[0].as_str(), segs[1].as_str());
             if let Some(n) = self.tiny_name(ty) {
+                if f == "from_bytes_unchecked" && args.len() == 1 {
+                    // `TinyStrN::from_bytes_unchecked(v.to_le_bytes())`: the bytes of the little-endian integer up to its last
+                    // non-zero byte (contract: `Model/Likely.lean`, `unpack`)
+                    if let syn::Expr::MethodCall(mc) = args[0] {
+                        if mc.method == "to_le_bytes" && mc.args.is_empty() {
+                            let v = self.tr_expr(&mc.receiver, env, Some(&Ty::UInt))?;
+                            if v.ty != Ty::UInt {
+                                return self.unsup("to_le_bytes of something that is not a u32/u64");
+                            }
+                            return self.lift(&[v], Ty::Tiny(n), false, &|a| format!("(UL.unpack {})", a[0]));
+                        }
+                    }
+                    return self.unsup(format!("`{}::from_bytes_unchecked` of something other than `v.to_le_bytes()`", ty));
+                }
                 if f == "from_bytes" {
                     one(self)?;
                     let v = self.tr_expr(args[0], env, Some(&Ty::Slice))?;
@@ -933,6 +971,8 @@ impl<'a> Tr<'a> {
         if !found {
             return self.unsup(format!("no `impl From<{}> for u32/u64/Option<u64>` of the expected form", name));
         }
+        // the contract is the target `<T>.toRaw` (translated from the `From` impl itself, proved in SrcTie/Raw.lean)
+        self.need_contract(&format!("{}.toRaw", name))?;
         match inner {
             Ty::Opt(_) => self.lift(&[v], Ty::Opt(Box::new(Ty::UInt)), false, &|a| format!("(Option.map UL.pack {})", a[0])),
             _ => self.lift(&[v], Ty::UInt, false, &|a| format!("(UL.pack {})", a[0])),
@@ -1002,6 +1042,9 @@ impl<'a> Tr<'a> {
             Some(s) => s.clone(),
             None => return self.unsup(format!("calls {} which is not translated before it (recursion or order)", tgt.lean)),
         };
+        for c in &sig.contracts {
+            self.contracts.insert(c.clone());
+        }
         let visible = tgt.module == self.module.name
             || self.module.imports.iter().any(|i| *i == format!("UnicLocale.Gen.{}", tgt.module));
         if !visible {
